@@ -216,6 +216,7 @@ def enumerate_sites(f, reach):
             st.body = b
             st.bb = bi
             st.t = t
+            st.ops = [K.fold_consts(o, f.consts) for o in st.ops]
             rendered = [render(o) for o in st.ops]
             if st.kind == "call:panic":
                 rendered = [r for r in rendered if r.startswith("b'")][:1] or rendered[:1]
@@ -1098,14 +1099,21 @@ def run(ctx):
                 unresolved += 1
             else:
                 classes[pr] = classes.get(pr, 0) + 1
-        if unresolved:
-            fn = root_fn(f, n)
-            row = table_loops.get(fn)
-            ok = row is not None and unresolved <= row["loops"]
-            classes["table"] = classes.get("table", 0) + (unresolved if ok else 0)
+        fn = root_fn(f, n)
+        row = table_loops.get(fn)
+        ok = unresolved == 0 or (row is not None and unresolved <= row["loops"])
+        if unresolved and ok:
+            classes["table"] = classes.get("table", 0) + unresolved
+        if unresolved or row is not None:
             ctx.ob("R-LOOP", "%s:loop-progress" % fn, ok,
-                   "the %d loop(s) of %s that advance neither an iterator, the decoder input nor a reader terminate: %s"
-                   % (unresolved, short(fn), row["reason"] if row else "NOT REVIEWED"), where=b.loc)
+                   "every loop of %s advances an iterator, the decoder input or a reader%s"
+                   % (short(fn), "" if not unresolved else "; the %d that do not terminate because: %s"
+                      % (unresolved, row["reason"] if row else "NOT REVIEWED")), where=b.loc)
+        elif ctx.view is not None:
+            # in a rewritten view also say so when a function's loops are all fine (so that a failure seen on the program
+            # as written can be matched)
+            ctx.ob("R-LOOP", "%s:loop-progress" % fn, True, "every loop of %s advances an iterator, the decoder input or a reader" % short(fn),
+                   where=b.loc, nontrivial=False)
     ctx.floor("R-LOOP", "loops in decode-reachable functions", nloops, 85)
     ctx.note("R-LOOP loops by progress class: %s" % json.dumps(classes, sort_keys=True))
 
